@@ -46,6 +46,25 @@ fn main() {
     }
 }
 
+/// Records how many schedules ran / were cut off by the step bound, and turns the run into
+/// "inconclusive" (exit 2, never a violation) if more than 1% of them were cut off.
+pub fn finish(mut rep: vcommon::Report<'_>) -> ! {
+    use std::sync::atomic::Ordering::Relaxed;
+    let n = vsched::TOTAL_SCHEDULES.load(Relaxed);
+    let cut = vsched::TOTAL_STEP_BOUND.load(Relaxed);
+    if let Some(p) = rep.parts.last_mut() {
+        p.extra.insert("engine_schedules_total".into(), vcommon::serde_json::json!(n));
+        p.extra.insert("engine_schedules_cut_by_step_bound".into(), vcommon::serde_json::json!(cut));
+    }
+    println!("engine: {n} schedules run, {cut} cut off by the step bound");
+    let violated = rep.parts.iter().any(|p| p.violation.is_some());
+    if !violated && !rep.ctx.is_replay() && cut * 100 > n {
+        println!("INCONCLUSIVE property={} {cut} of {n} schedules hit the step bound", rep.ctx.prop);
+        std::process::exit(2);
+    }
+    rep.finish()
+}
+
 /// Common assumptions of every part that runs on the schedule-controlled engine.
 pub fn engine_assumptions(rep: &mut vcommon::Report<'_>) {
     rep.assume(
@@ -54,6 +73,12 @@ pub fn engine_assumptions(rep: &mut vcommon::Report<'_>) {
          asserted at build time); interleavings are explored at the granularity of these operations under \
          sequential consistency only (no weak-memory reorderings)",
     );
+    rep.assume(format!(
+        "plain (non-atomic) memory is only observed at scheduling points: a data race on non-atomic data that needs \
+         preemption between two ordinary loads/stores is not visible to this engine; POSIX shm objects of the instrumented \
+         copy are modelled as one process-memory block per object. Instrumentation manifest (substitution, expected count): {}",
+        INST_MANIFEST.replace('\n', " | ")
+    ));
     rep.assume(
         "schedules are sampled (seeded uniform-random scheduler, PCT in the thorough tier), not enumerated; \
          executions cut off by the step bound are counted as inconclusive, never as violations",
